@@ -75,7 +75,7 @@ def run_tlc(module: str, cfg: Optional[str] = None, *, workers: int | str = "aut
     root = scratch_root()
     work = Path(tempfile.mkdtemp(prefix=f"tlc-{module}-", dir=root))
     meta = work / "meta"
-    cfgp = spec_dir / (cfg or f"{module}.cfg")
+    cfgp = Path(cfg) if cfg and os.path.isabs(str(cfg)) else spec_dir / (cfg or f"{module}.cfg")
     cmd = ["java", "-XX:+UseParallelGC", "-Xmx8g"]
     if dfs_queue:
         cmd.append("-Dtlc2.tool.queue.IStateQueue=StateDeque")
